@@ -17,7 +17,14 @@ if [ "$patch" != "none" ]; then
   git -C $base/repo apply "$patch" || { echo "PATCH DOES NOT APPLY"; exit 3; }
 fi
 mkdir -p $base/verif
-rsync -a --delete --exclude target --exclude evidence --exclude replays --exclude .git /verif/ $base/verif/
+if [ "${VERIF_FROM_HEAD:-0}" = "1" ]; then
+  # batch runs: the committed state of /verif, so that edits in progress never leak into a result
+  rm -rf $base/verif-src; mkdir -p $base/verif-src
+  git -C /verif archive HEAD | tar -x -C $base/verif-src
+  rsync -rlpc --delete --exclude target --exclude evidence --exclude replays --exclude .git $base/verif-src/ $base/verif/
+else
+  rsync -a --delete --exclude target --exclude evidence --exclude replays --exclude .git /verif/ $base/verif/
+fi
 grep -rl '/repo' $base/verif/engines --include=Cargo.toml --include=build.rs --include='*.rs' | xargs -r sed -i "s#\"/repo#\"$base/repo#g; s#= \"/repo#= \"$base/repo#g"
 cd $base/verif
 rc=0
